@@ -15,6 +15,12 @@ def _one(ctx, sc, entry, stats, sample=False):
     ctx.inc("calls", len(recs))
     common.check_recs(ctx, sc, entry, recs, [O.o_surface], stats)
     for rec in recs:
+        # once the run has reported why retries stopped (a terminal event other than `aborted`), what call() surfaces is that stop:
+        # a shutdown flag that goes up afterwards comes too late to turn it into an abort
+        terms = [e_[1] for e_ in rec.trace if e_[0] == "metric" and e_[1] in ("permanent_fail", "deadline_exceeded", "max_attempts_exceeded", "max_unknown_attempts_exceeded", "no_strategy_configured", "budget_exhausted", "success")]
+        if terms and rec.final[0] == "raise" and type(rec.final[1]).__name__ == "AbortRetryError" and rec.env.get("abort_after_terminal"):
+            ctx.viol("stopped-run-surfaced-as-abort", f"[{entry} call#{rec.idx}] the run had reported `{terms[0]}`; the abort flag went up only then, yet call() raised AbortRetryError instead of surfacing that stop", common.payload(sc, entry, rec.idx))
+            continue
         v = View(rec, sc)
         how, s = O.run_ending(v)
         prev = v.segs[-2].cause if len(v.segs) >= 2 else "-"
@@ -87,6 +93,13 @@ def work(ctx, tier):
     n = (9000 if tier == "quick" else 250000) // ctx.nshards
     for k in range(n):
         sc = gen.rand_scenario(rng, p_special=0.08, specials=("abort", "nested_exh", "nested_open", "cancel", "kbd", "sysexit", "timeout", "timeout"), p_attempt_timeout=0.15, p_budget=0.3, p_handler=0.4, p_abort=0.15, ncalls=(1, 2), placements=(k % 5 == 0), p_exc_same=0.2, p_via_config=0.2, p_res_none=0.15)
+        if k % 6 == 4:
+            # a shutdown flag that goes up as soon as the run has reported its terminal event: what call() surfaces is already decided
+            sc["poll"] = True
+            for c in sc["calls"]:
+                c["abort_after_terminal"] = True
+                c["abort_at"] = None
+            ctx.inc("scenarios_with_abort_flag_raised_by_the_terminal_event")
         for e in common.pick_entries(rng, entries, 3):
             _one(ctx, sc, e, stats, sample=(k < 2 and ctx.shard == 0))
         ctx.inc("random_scenarios")
@@ -109,6 +122,7 @@ def conclude(ctx):
         other = "result" if cause == "exception" else "exception"
         floors[f"final {cause} after previous {other}"] = (sum(v for k, v in cells.items() if k.startswith("end:stopped/") and k.endswith(f"/{cause}/{other}")), 30)
     floors["identity_checks:value"] = (ctx.cnt["identity_checks:value"], 200)
+    floors["scenarios_with_abort_flag_raised_by_the_terminal_event"] = (ctx.cnt["scenarios_with_abort_flag_raised_by_the_terminal_event"], 100)
     floors["first_success_checks_with_a_raising_callback"] = (ctx.cnt["first_success_checks_with_a_raising_callback"], 100)
     floors.update(tconc.floors(ctx))
     return dict(
